@@ -132,6 +132,16 @@ def run_shard(exe, base_args, config, prop, outdir, tag, timeout_s, env_extra=No
                                    "msg": r["title"], "detail": {"report": r["text"][:6000], "kind": r["kind"], "in_dispenso": r["in_dispenso"]},
                                    "source": "sanitizer"})
         res.stderr_tail = errtxt[-1500:]
+        # attach the thread stacks the runtime dumped for a hang / inconclusive verdict
+        if "@@VRT stacks begin" in errtxt:
+            stacks = errtxt.split("@@VRT stacks begin", 1)[1].split("@@VRT stacks end", 1)[0][-12000:]
+            for v in reversed(res.violations):
+                if v.get("source") == "watchdog":
+                    v.setdefault("detail", {})["stacks"] = stacks
+                    break
+            for i in reversed(res.inconclusive):
+                i["stacks"] = stacks[-6000:]
+                break
         if only is not None:
             if rc not in (0, 3, 4) and not reports and open_case is not None:
                 res.violations.append({"prop": prop, "key": open_case["key"], "case": open_case["case"],
